@@ -74,17 +74,22 @@ theorem joinM_error_inv {f : Val → Except Err Str} {xs : List Val} {y : Err}
     cases hfa : f a with
     | error x =>
       rw [hfa] at h
-      exact ⟨a, by simp, by rw [hfa]; exact h⟩
+      simp at h; subst h
+      exact ⟨a, by simp, hfa⟩
     | ok s =>
       rw [hfa] at h
       cases hj : joinM f as with
       | error z =>
         rw [hj] at h
+        simp at h; subst h
         obtain ⟨e, he, hfe⟩ := ih hj
-        exact ⟨e, by simp [he], by rw [hfe]; exact h⟩
+        exact ⟨e, by simp [he], hfe⟩
       | ok b => rw [hj] at h; cases h
 
 /-! ### undefined ⇒ error (text templates) -/
+
+theorem not_defined_of_ne_val {ctx : Ctx} {p : Path} (h : ∀ v, resolve ctx p ≠ .val v) :
+    ¬ Defined ctx p := fun ⟨v, hv⟩ => h v hv
 
 /-- **undefined_is_error (text)**: under the strict policy, a template that reaches a
 reference its context does not define does not render: the result is an error — whatever
@@ -96,13 +101,13 @@ theorem undefined_is_error {ctx c : Ctx} {t : Tmpl} {p : Path} {k : Use}
   | @var ctx p =>
     cases hr : resolve ctx p with
     | val v => exact absurd ⟨v, hr⟩ hu
-    | undef => exact ⟨_, by simp [renderT, hr]⟩
-    | broken => exact ⟨_, by simp [renderT, hr]⟩
+    | undef => exact ⟨.undefined p, by simp [renderT, hr]⟩
+    | broken => exact ⟨.undefined p, by simp [renderT, hr]⟩
   | @esc ctx p =>
     cases hr : resolve ctx p with
     | val v => exact absurd ⟨v, hr⟩ hu
-    | undef => exact ⟨_, by simp [renderT, hr]⟩
-    | broken => exact ⟨_, by simp [renderT, hr]⟩
+    | undef => exact ⟨.undefined p, by simp [renderT, hr]⟩
+    | broken => exact ⟨.undefined p, by simp [renderT, hr]⟩
   | seqL _ ih =>
     obtain ⟨e, he⟩ := ih hu
     exact ⟨e, by simp [renderT, he]⟩
@@ -114,8 +119,8 @@ theorem undefined_is_error {ctx c : Ctx} {t : Tmpl} {p : Path} {k : Use}
   | @forHead ctx v p body =>
     cases hr : resolve ctx p with
     | val v => exact absurd ⟨v, hr⟩ hu
-    | undef => exact ⟨_, by simp [renderT, hr]⟩
-    | broken => exact ⟨_, by simp [renderT, hr]⟩
+    | undef => exact ⟨.undefined p, by simp [renderT, hr]⟩
+    | broken => exact ⟨.undefined p, by simp [renderT, hr]⟩
   | @forBody ctx v p body xs e c q k hres hmem _ ih =>
     obtain ⟨x, hx⟩ := ih hu
     obtain ⟨y, hy⟩ := joinM_error (f := fun e => renderT .strict ((v, e) :: ctx) body) hmem ⟨x, hx⟩
@@ -123,8 +128,8 @@ theorem undefined_is_error {ctx c : Ctx} {t : Tmpl} {p : Path} {k : Use}
   | @ifHead ctx p s body =>
     cases hr : resolve ctx p with
     | val v => exact absurd ⟨v, hr⟩ hu
-    | undef => exact ⟨_, by simp [renderT, hr]⟩
-    | broken => exact ⟨_, by simp [renderT, hr]⟩
+    | undef => exact ⟨.undefined p, by simp [renderT, hr]⟩
+    | broken => exact ⟨.undefined p, by simp [renderT, hr]⟩
   | @ifBody ctx p s body c q k hres _ ih =>
     obtain ⟨x, hx⟩ := ih hu
     exact ⟨x, by simp [renderT, hres, hx]⟩
@@ -166,10 +171,10 @@ theorem error_has_cause {ctx : Ctx} {t : Tmpl} {e : Err}
     | val v => simp [renderT, hr] at h
     | undef =>
       simp [renderT, hr] at h
-      exact .inl ⟨ctx, p, .print, .var, by rintro ⟨v, hv⟩; rw [hr] at hv; cases hv, h.symm⟩
+      exact .inl ⟨ctx, p, .print, .var, not_defined_of_ne_val (by simp [hr]), h.symm⟩
     | broken =>
       simp [renderT, hr] at h
-      exact .inl ⟨ctx, p, .print, .var, by rintro ⟨v, hv⟩; rw [hr] at hv; cases hv, h.symm⟩
+      exact .inl ⟨ctx, p, .print, .var, not_defined_of_ne_val (by simp [hr]), h.symm⟩
   | escVar p =>
     cases hr : resolve ctx p with
     | val v =>
@@ -177,16 +182,16 @@ theorem error_has_cause {ctx : Ctx} {t : Tmpl} {e : Err}
       | str s => simp [renderT, hr] at h
       | list xs =>
         simp [renderT, hr] at h
-        exact .inr ⟨ctx, p, _, .esc, hr, by intro s hs; cases hs, h.symm⟩
+        exact .inr ⟨ctx, p, _, .esc, hr, (by intro s hs; cases hs), h.symm⟩
       | record fs =>
         simp [renderT, hr] at h
-        exact .inr ⟨ctx, p, _, .esc, hr, by intro s hs; cases hs, h.symm⟩
+        exact .inr ⟨ctx, p, _, .esc, hr, (by intro s hs; cases hs), h.symm⟩
     | undef =>
       simp [renderT, hr] at h
-      exact .inl ⟨ctx, p, .esc, .esc, by rintro ⟨v, hv⟩; rw [hr] at hv; cases hv, h.symm⟩
+      exact .inl ⟨ctx, p, .esc, .esc, not_defined_of_ne_val (by simp [hr]), h.symm⟩
     | broken =>
       simp [renderT, hr] at h
-      exact .inl ⟨ctx, p, .esc, .esc, by rintro ⟨v, hv⟩; rw [hr] at hv; cases hv, h.symm⟩
+      exact .inl ⟨ctx, p, .esc, .esc, not_defined_of_ne_val (by simp [hr]), h.symm⟩
   | seq a b iha ihb =>
     cases ha : renderT .strict ctx a with
     | error x =>
@@ -214,10 +219,10 @@ theorem error_has_cause {ctx : Ctx} {t : Tmpl} {e : Err}
       · exact .inr ⟨c, q, w, .forBody hr hel hre, hv, hs, he⟩
     | undef =>
       simp [renderT, hr] at h
-      exact .inl ⟨ctx, p, .iter, .forHead, by rintro ⟨v, hv⟩; rw [hr] at hv; cases hv, h.symm⟩
+      exact .inl ⟨ctx, p, .iter, .forHead, not_defined_of_ne_val (by simp [hr]), h.symm⟩
     | broken =>
       simp [renderT, hr] at h
-      exact .inl ⟨ctx, p, .iter, .forHead, by rintro ⟨v, hv⟩; rw [hr] at hv; cases hv, h.symm⟩
+      exact .inl ⟨ctx, p, .iter, .forHead, not_defined_of_ne_val (by simp [hr]), h.symm⟩
   | ifEq p s body ih =>
     cases hr : resolve ctx p with
     | val v =>
@@ -235,10 +240,10 @@ theorem error_has_cause {ctx : Ctx} {t : Tmpl} {e : Err}
       | record fs => simp [renderT, hr] at h
     | undef =>
       simp [renderT, hr] at h
-      exact .inl ⟨ctx, p, .cmp, .ifHead, by rintro ⟨v, hv⟩; rw [hr] at hv; cases hv, h.symm⟩
+      exact .inl ⟨ctx, p, .cmp, .ifHead, not_defined_of_ne_val (by simp [hr]), h.symm⟩
     | broken =>
       simp [renderT, hr] at h
-      exact .inl ⟨ctx, p, .cmp, .ifHead, by rintro ⟨v, hv⟩; rw [hr] at hv; cases hv, h.symm⟩
+      exact .inl ⟨ctx, p, .cmp, .ifHead, not_defined_of_ne_val (by simp [hr]), h.symm⟩
 
 /-- every reached `|escape` is applied to a string (no type error can come first) -/
 def EscOk (ctx : Ctx) (t : Tmpl) : Prop :=
@@ -528,16 +533,22 @@ theorem templated_row_fails {cf : Conf} {ctx c : Ctx} {cells : List (Str × Src)
 theorem shortcut_is_render {cf : Conf} {value : Str} {t : Tmpl}
     (hshow : t.show = strip pyWs value) (hnb : (strip pyWs value).contains shortcutChar = false) :
     parseAsString cf (some []) value (.text t) = renderSrc cf [] (.text t) := by
-  have hn : shortcutChar ∉ t.show := by
-    rw [hshow]; intro hm
+  have hn' : shortcutChar ∉ strip pyWs value := by
+    intro hm
     have : (strip pyWs value).contains shortcutChar = true := by simpa using hm
     rw [hnb] at this; cases this
-  simp [parseAsString, hnb, renderSrc, shortcut_exact cf.textPol [] hn, hshow]
+  have hn : shortcutChar ∉ t.show := hshow ▸ hn'
+  simp [parseAsString, hn', renderSrc, shortcut_exact cf.textPol [] hn, hshow]
 
 /-- two native templates in one cell are rejected whatever they name -/
 theorem nested_native_rejected (cf : Conf) (ctx : Ctx) :
     parseAsString cf (some ctx) "{@a@}{@b@}".toList (.nat2 ⟨"a".toList, []⟩ ⟨"b".toList, []⟩)
       = .error .nestedNative := by
-  cases ctx <;> decide
+  have h1 : strip pyWs "{@a@}{@b@}".toList = "{@a@}{@b@}".toList := by decide
+  have h2 : isNativeCell "{@a@}{@b@}".toList = true := by decide
+  have h3 : containsSub natStart (List.drop nestedOffset "{@a@}{@b@}".toList) = true := by decide
+  have h4 : List.contains "{@a@}{@b@}".toList shortcutChar = true := by decide
+  simp only [parseAsString, h1, h2, h3, h4, Bool.not_true, Bool.and_false, Bool.false_eq_true,
+    if_false, if_true]
 
 end Rpft.Props.C16
